@@ -469,7 +469,25 @@ Definition step_checks (cfg : config) (ms : mstate) (o : op) (outs : list out) (
                                   | None => true
                                   end) (sn_pairs sn)) ]
         else [] in
-      c02 ++ c05 ++ c03r ++ c03s ++ c20 ++ c20c
+      (* a response that validates a pair may move the selection to it on the strength of a valued nomination only
+         if that value is still the latest accepted one (an overtaken deferred renomination never switches) *)
+      let c20s :=
+        if resp_ok && negb (sn_ctl prev) && sel_changed then
+          match sn_selected sn with
+          | Some id =>
+            match pair_in sn id with
+            | Some p =>
+              let vals := map nr_value (filter (fun n => (nr_lh n =? ps_lh p) && addr_eqb (nr_src n) (ps_raddr p) && nr_valued n) (ms_nomreq ms)) in
+              match vals with
+              | [] => []
+              | _ => [ ck "C20.stale_deferred_never_switches" (opt_eqb Z.eqb (sn_last_nom prev) (Some (fold_left Z.max vals 0))) ]
+              end
+            | None => []
+            end
+          | None => []
+          end
+        else [] in
+      c02 ++ c05 ++ c03r ++ c03s ++ c20 ++ c20c ++ c20s
     | InData lh src p =>
       if negb live || negb (local_listed prev lh) then
         [ ck "C07.dead_socket_inert" (match outs with [] => snap_eqb prev sn | _ => false end) ]
